@@ -513,6 +513,19 @@ def small_trees(leaves, depth, ops=BIN, unary=True, tern=True):
     return out
 
 
+def gen_lit(rng, syms):
+    """a decimal literal, bare or braced, of up to 6 digits and 4 decimals, in one of `syms` or
+    without commodity; written without thousands marks (a commodity that has seen a mark prints with
+    marks from then on - amount text is C04's subject, and `f(2,1)` would be one number)"""
+    nd = rng.choice([1, 1, 2, 3, 4, 6])
+    dec = rng.choice([0, 0, 1, 2, 2, 3, 4])
+    digits = str(rng.randrange(1, 10)) + ''.join(rng.choice('0123456789') for _ in range(nd - 1))
+    if rng.random() < 0.03:
+        digits = '0'
+    sym = rng.choice(syms) if rng.random() < 0.6 else None
+    return ('lit', Lit(digits, dec, sym, braced=rng.random() < 0.25))
+
+
 def gen_leaf(rng, syms, scope, want):
     """scope: [(name, type)]"""
     cands = [n for n, t in scope if t == want or rng.random() < 0.05]
@@ -523,7 +536,7 @@ def gen_leaf(rng, syms, scope, want):
         return ('bool', rng.random() < 0.5)
     if r < 0.5:
         return ('int', rng.choice([0, 1, 2, 3, 6, 7, 10, -3, -7, 100]))
-    return c03.gen_lit(rng, syms)
+    return gen_lit(rng, syms)
 
 
 class Names:
